@@ -126,6 +126,18 @@ Theorem C02_sync_converges : forall cfg pcn parent i1 i2 s pc R,
   settledb pcn (sync_n cfg pcn parent [i1] s) = true \/ settledb pcn (sync_n cfg pcn parent [i1; i2] s) = true.
 Proof. exact sync_converges. Qed.
 
+(** From the last phase of a key roll (old key waiting for its revocation) at most three syncs reach Settled,
+    provided the parent still knows the old key (see [C02_revoke_refused_stuck]). *)
+Theorem C02_sync_converges_rollold : forall cfg pcn parent i1 i2 i3 s pc R x cur old,
+  pgood pcn s pc R -> st_xc s = Some x -> d_keys x = KRollOld cur old -> unlimited x ->
+  d_prcn x = name_for_child (dc_ch (st_ch s)) pcn ->
+  ch_is_issued (dc_ch (st_ch s)) (k_id old) = true ->
+  (k_req cur = true -> inter R (dc_ent (st_ch s)) <> 0) ->
+  settledb pcn (sync_n cfg pcn parent [i1] s) = true
+  \/ settledb pcn (sync_n cfg pcn parent [i1; i2] s) = true
+  \/ settledb pcn (sync_n cfg pcn parent [i1; i2; i3] s) = true.
+Proof. exact sync_converges_rollold. Qed.
+
 (** In a settled state in which the parent reports nothing new a sync changes nothing and stores no command. *)
 Theorem C02_sync_idempotent : forall cfg pcn parent inp s pc R x c,
   pgood pcn s pc R -> st_xc s = Some x -> d_keys x = KActive c -> settledb pcn s = true ->
@@ -146,6 +158,16 @@ Theorem C02_quiet_fresh : forall cfg pcn inp pc dch x c ic R,
   aget (k_id c) (d_issued pc) = Some ic -> i_exp ic = na_of x (k_id c) -> (si_now inp + cf_thr cfg < i_exp ic)%Z ->
   quiet cfg pcn inp pc dch x c.
 Proof. exact quiet_fresh. Qed.
+
+(** wants_update in arithmetic form: a new certificate is requested iff the resources differ, or the eligible
+    not-after lies in the future, differs from the current one, and is more than 10 % shorter, or the current
+    one has passed, or it is more than 10 % or at least a week longer. *)
+Theorem C02_wants_update_spec : forall cur_res new_res cur_na new_na now,
+  wants_update true false cur_res new_res cur_na new_na now = true <->
+  new_res <> cur_res
+  \/ (let rc := (cur_na - now)%Z in let re := (new_na - now)%Z in
+      (0 < re /\ rc <> re /\ ((0 < rc /\ 10 * re < 9 * rc) \/ rc <= 0 \/ 11 * rc < 10 * re \/ 604800 <= re - rc))%Z).
+Proof. exact wants_update_spec. Qed.
 
 (** One sync of the request branch serves the open request of a pending or active key. *)
 Theorem C02_step_request : forall cfg pcn parent inp s pc R x k,
@@ -168,6 +190,15 @@ Theorem C02_open_request_empty_entitlement_stuck :
                   /\ aget 8 (d_issued pc') = Some (mkIC 0 no_limit 31449700)).
 Proof. exact sync_stuck_witness. Qed.
 
+(** Candidate finding (reported): once the parent has removed the certificate of the child's old key, the
+    revocation request that ends the key roll is refused for ever; the state is a fixed point of the driver. *)
+Theorem C02_revoke_refused_stuck :
+  let ins := [mkSin 100 50; mkSin 200 51; mkSin 300 52; mkSin 400 53] in
+  sync_n ex_cfg 0 2 ins stuck_revoke_state = stuck_revoke_state
+  /\ settledb 0 stuck_revoke_state = false
+  /\ sr_err (sync_step ex_cfg 0 2 (mkSin 100 50) stuck_revoke_state) = true.
+Proof. exact sync_stuck_revoke_witness. Qed.
+
 Print Assumptions C02_issued_exact.
 Print Assumptions C02_issued_exact_no_limit.
 Print Assumptions C02_issued_within.
@@ -187,8 +218,11 @@ Print Assumptions C02_activate_roas_except_smaller.
 Print Assumptions C02_activate_contained.
 Print Assumptions C02_received_roas_within.
 Print Assumptions C02_sync_converges.
+Print Assumptions C02_sync_converges_rollold.
+Print Assumptions C02_revoke_refused_stuck.
 Print Assumptions C02_sync_idempotent.
 Print Assumptions C02_sync_idempotent_none.
 Print Assumptions C02_quiet_fresh.
+Print Assumptions C02_wants_update_spec.
 Print Assumptions C02_step_request.
 Print Assumptions C02_open_request_empty_entitlement_stuck.
